@@ -292,6 +292,9 @@ def _probe_defects():
          'pie/factory.py:_build_pie_certificate:TypeError'),
         ('get-attributes-empty-response', (2, 0), 'SYMMETRIC_KEY', {'op': 'GetAttributes', 'names': ['Certificate Type']},
          'core/messages/payloads/get_attributes.py:write:InvalidField'),
+        # not an internal-error site: does MAC accept an (active, MAC-capable) certificate as its key?  site None = "reaches the crypto engine"
+        ('mac-accepts-any-type', (1, 2), 'CERTIFICATE', {'op': 'MAC', 'params': {'cryptographic_algorithm': E.CryptographicAlgorithm.HMAC_SHA256}, 'data': b'd'},
+         None),
     ]
     out = []
     drv = c13.Driver(Ctx)
@@ -310,7 +313,11 @@ def _probe_defects():
                 req['wrap'] = {'eki': {'uid': wk, 'params': req['wrap']['eki']['params']}, 'encoding': 'NO_ENCODING'}
             obs = drv.run(c13.mk_item(req), ver)
             seen = c13.observed_site(obs)
-            if seen is None:
+            if site is None:
+                if seen is not None:
+                    raise ValueError('probe %s: unexpected internal error at %s' % (name, seen))
+                out.append((name, bool(obs['crypto'])))
+            elif seen is None:
                 out.append((name, False))
             elif seen == site:
                 out.append((name, True))
